@@ -138,6 +138,7 @@ class BaseRollPass(DiskElementUnit, DeformationUnit, ABC):
         self.out_profile.cross_section = self.usable_cross_section
 
     def reevaluate_cache(self):
+        self._contour_lines = None  # memoised from gap and groove: must not feed the re-evaluation below
         super().reevaluate_cache()
         self.roll.reevaluate_cache()
         self._contour_lines = None
